@@ -178,10 +178,6 @@ pub fn check_traj(c: &TrajCase, ctx: &mut Ctx) -> CheckResult {
             // a run that ends in NumericalError may have had a failing KKT solve already at the starting point;
             // that path leaves the previous solve's iterate in place (the failure is not propagated), so what a
             // re-used object returns after a numerical failure is not defined by the property.  Not judged.
-            if a.status == SolverStatus::NumericalError || b.status == SolverStatus::NumericalError {
-                ctx.label("reuse:numerical-error(not judged)");
-                continue;
-            }
             ensure!(
                 a.status == b.status && a.iterations == b.iterations && bits(&a.x, &b.x) && bits(&a.s, &b.s) && bits(&a.z, &b.z),
                 "re-using one solver object with max_iter = {k} (after solves with smaller budgets) gives a different result than a fresh solver: {:?}/{} vs {:?}/{}",
